@@ -62,7 +62,7 @@ from .. import gen, view
 from ..harness import Result, Violation, clip, parallel, seed
 from .mut import _spec_json, spec_from_json
 
-WD = 4.0  # watchdog for every wait (seconds); reaching it is reported, never silently accepted
+WD = 5.0  # watchdog for every wait (seconds); reaching it is reported, never silently accepted
 _RLOCK_TYPE = type(threading.RLock())
 
 
@@ -948,7 +948,10 @@ def _eval0(item, ctx):
             ks = [item[5]]
         else:
             n = _count_reads(cls_name, spec, op, ctx)
-            ks = sorted({k for k in (1, (n + 1) // 2, n) if k >= 1})
+            if ctx.get("tier") == "thorough":  # every read up to 12, else a spread of 7 positions
+                ks = sorted({k for k in (list(range(1, n + 1)) if n <= 12 else (1, 2, n // 3, n // 2, 2 * n // 3, n - 1, n)) if k >= 1})
+            else:
+                ks = sorted({k for k in (1, (n + 1) // 2, n) if k >= 1})
         out = []
         for k in ks:
             r = case_reader_first(cls_name, spec, mut, op, k, ctx)
@@ -977,10 +980,10 @@ def _case_repr(item) -> str:
     return " | ".join(parts)
 
 
-def _run_chunk(chunk, prop):
+def _run_chunk(chunk, prop, tier="quick", scratch_root=None):
     res = Result(prop)
-    d = tempfile.mkdtemp(prefix="c18_")
-    ctx = {"dir": d}
+    d = tempfile.mkdtemp(prefix="c18_", dir=scratch_root)
+    ctx = {"dir": d, "tier": tier}
     snaps = raw_bad = 0
     try:
         timeouts = 0
@@ -1022,7 +1025,11 @@ def run(prop: str, tier: str, only=None) -> Result:
     _BREAKER = mp.get_context("fork").Value("i", 0)
     items = _items(tier, only)
     # stress items last and spread evenly; everything else in enumeration order
-    res = parallel(_run_chunk, items, prop, prop=prop, chunks_per_proc=6)
+    scratch_root = tempfile.mkdtemp(prefix="c18_run_")  # all per-chunk scratch folders live below; removed here
+    try:
+        res = parallel(_run_chunk, items, prop, tier, scratch_root, prop=prop, chunks_per_proc=6)
+    finally:
+        shutil.rmtree(scratch_root, ignore_errors=True)
     snaps = sum(n[1] for n in res.notes if isinstance(n, tuple) and n[0] == "stress")
     raw_bad = sum(n[2] for n in res.notes if isinstance(n, tuple) and n[0] == "stress")
     res.notes = [n for n in res.notes if not (isinstance(n, tuple) and n[0] == "stress")]
@@ -1038,7 +1045,7 @@ def run(prop: str, tier: str, only=None) -> Result:
                  f"all plain trees with <= 3 nodes over {{a,b,c}} (clones incl.), all typed trees with <= 3 nodes over {{a,b}} x kinds {{k1,k2}}, 80 random 4..6-node plain/typed trees (VERIF_SEED={seed()})")
     res.bounds["controlled schedules (writer-first, reader-first)"] = (
         f"{specs_txt} x two-step writers {list(MUTS)} x operations {list(OPS)} (Tree and TypedTree; TypedTree.save incl. value_map variants); "
-        "writer-first: reader started while the writer is parked between its two steps; reader-first: reader parked in its first / middle / last structure read while the writer queues up"
+        "writer-first: reader started while the writer is parked between its two steps; reader-first: reader parked in its " + ("first / middle / last" if tier == "quick" else "every (<= 12 reads) or 7 spread") + " structure read(s) while the writer queues up"
         + (" (reader-first: writers add2 and clear_add only)" if tier == "quick" else ""))
     res.bounds["reentrant / exception"] = "same trees x every operation x nesting depth 2 and 3 (watchdog %.0fs); raising mapper/predicate callbacks for save, to_dict_list, copy(predicate), to_dotfile" % WD
     res.bounds["two-writers"] = "trees with <= 2 nodes x {add2, ren2} x sampled operation pairs: writer A parked inside, writer A2 and readers B, B2 queued"
